@@ -26,7 +26,7 @@ def build_one(args):
 
 
 def write_replay(root, kind, payload):
-    d = os.path.join(root, "replays")
+    d = os.environ.get("VERIF_REPLAYS", os.path.join(root, "replays"))
     os.makedirs(d, exist_ok=True)
     h = hashlib.sha1(json.dumps(payload, sort_keys=True).encode()).hexdigest()[:10]
     p = os.path.join(d, f"C20-{kind}-{h}.json")
@@ -61,8 +61,10 @@ def run(root, pid, tier, seed):
     sys.path.insert(0, os.path.join(root, "tools"))
     import featmodel as FM
     import props_config as PC
-    os.makedirs(os.path.join(root, "work"), exist_ok=True)
-    os.makedirs(os.path.join(root, "evidence"), exist_ok=True)
+    work = os.environ.get("VERIF_WORK", os.path.join(root, "work"))
+    evid = os.environ.get("VERIF_EVIDENCE", os.path.join(root, "evidence"))
+    os.makedirs(work, exist_ok=True)
+    os.makedirs(evid, exist_ok=True)
     lean = os.path.join(root, "lean")
     violations, notes = [], []
     model, names, axioms_used, proof_ok, pinfo = None, [], [], False, {}
@@ -87,7 +89,7 @@ def run(root, pid, tier, seed):
         src_nc = re.sub(r"/-.*?-/", "", src, flags=re.S)
         names = ["GeonumModel.C20." + n for n in re.findall(r"^theorem\s+(\S+)", src_nc, flags=re.M)]
         if rc == 0:
-            audit = os.path.join(root, "work", "AuditC20.lean")
+            audit = os.path.join(work, "AuditC20.lean")
             open(audit, "w").write("import GeonumModel.Props.C20\n" + "".join(f"#print axioms {n}\n" for n in names))
             rc2, out2 = sh(["lake", "env", "lean", audit], cwd=lean, timeout=1800)
             ax = {}
@@ -180,7 +182,7 @@ def run(root, pid, tier, seed):
     }
     if ev["coverage"]["discharged"] < 1:
         ev["level"] = "other"   # nothing was discharged on this run: do not present it as proof-level evidence
-    json.dump(ev, open(os.path.join(root, "evidence", "C20.json"), "w"), indent=1)
+    json.dump(ev, open(os.path.join(evid, "C20.json"), "w"), indent=1)
     if violations:
         rp, suffix = violations[0]
         print(f"VIOLATION property=C20 replay={rp}" + (" " + suffix if suffix else ""))
